@@ -1759,33 +1759,42 @@ func (w *c13World) blockStep() bool {
 	if n == nil || n.idle {
 		return true
 	}
-	// 2. Spends of watched outpoints and sweep results, one transaction at a time.
+	// 2. Spends of watched outpoints and sweep results: one notification at a
+	// time, each followed by quiescence, so that the order in which resolvers act
+	// (and hence which write is the k-th) does not depend on the Go scheduler.
 	for _, m := range mined {
-		w.mu.Lock()
 		for _, in := range m.tx.TxIn {
 			op := in.PreviousOutPoint
+			w.mu.Lock()
 			sp := w.spent[op]
-			for _, ev := range n.spendRegs[op] {
+			evs := n.spendRegs[op]
+			delete(n.spendRegs, op)
+			var rcs []chan sweep.Result
+			if req := n.sweeps[op]; req != nil {
+				rcs = req.chans
+				delete(n.sweeps, op)
+			}
+			w.mu.Unlock()
+			for i, ev := range evs {
 				select {
 				case ev.Spend <- w.spendDetail(op, sp):
 				default:
 				}
-			}
-			delete(n.spendRegs, op)
-			if req := n.sweeps[op]; req != nil {
-				for _, rc := range req.chans {
-					select {
-					case rc <- (&c13Sweeper{n: n}).result(sp):
-					default:
-					}
+				w.logf("  deliver: spend of %s by %s (watcher %d)", w.opName(op), w.tagOf(m.tx.TxHash()), i+1)
+				if !w.settle() {
+					return false
 				}
-				delete(n.sweeps, op)
 			}
-		}
-		w.mu.Unlock()
-		w.logf("  deliver: spends by %s", w.tagOf(m.tx.TxHash()))
-		if !w.settle() {
-			return false
+			for _, rc := range rcs {
+				select {
+				case rc <- (&c13Sweeper{n: n}).result(sp):
+				default:
+				}
+				w.logf("  deliver: sweep result for %s", w.opName(op))
+				if !w.settle() {
+					return false
+				}
+			}
 		}
 	}
 	// 3. The chain watcher.
@@ -1801,16 +1810,17 @@ func (w *c13World) blockStep() bool {
 	// the breach arbitrator finishing.
 	for _, p := range late {
 		w.mu.Lock()
-		for _, ch := range n.preSubs {
+		subs := append([]chan lntypes.Preimage{}, n.preSubs...)
+		w.mu.Unlock()
+		for _, ch := range subs {
 			select {
 			case ch <- p:
 			default:
 			}
-		}
-		w.mu.Unlock()
-		w.logf("  deliver: preimage %x.. learned", p[:4])
-		if !w.settle() {
-			return false
+			w.logf("  deliver: preimage %x.. learned", p[:4])
+			if !w.settle() {
+				return false
+			}
 		}
 	}
 	if justiceNow {
@@ -1829,14 +1839,12 @@ func (w *c13World) blockStep() bool {
 	w.mu.Lock()
 	regs := append([]*c13EpochReg{}, n.epochRegs...)
 	w.mu.Unlock()
-	if len(regs) > 0 {
-		for _, r := range regs {
-			select {
-			case r.ch <- &chainntnfs.BlockEpoch{Height: h, Hash: &chainhash.Hash{}}:
-			default:
-			}
+	for i, r := range regs {
+		select {
+		case r.ch <- &chainntnfs.BlockEpoch{Height: h, Hash: &chainhash.Hash{}}:
+		default:
 		}
-		w.logf("  deliver: block epoch %d to %d resolver subscription(s)", h, len(regs))
+		w.logf("  deliver: block epoch %d to resolver subscription %d/%d", h, i+1, len(regs))
 		if !w.settle() {
 			return false
 		}
